@@ -44,4 +44,28 @@ def decryptW (tbl : List (UInt32 × UInt32)) (v : UInt32 × UInt32) : UInt32 × 
 def encrypt (tbl : List (UInt32 × UInt32)) (src : Bytes) : Bytes := join8 (encryptW tbl (split8 src))
 def decrypt (tbl : List (UInt32 × UInt32)) (src : Bytes) : Bytes := join8 (decryptW tbl (split8 src))
 
+/-! ### reference: XTEA as published (Needham & Wheeler 1997), no precalculated table:
+    `v0 += (((v1<<4)^(v1>>5)) + v1) ^ (sum + k[sum&3]); sum += delta; v1 += (((v0<<4)^(v0>>5)) + v0) ^ (sum + k[(sum>>11)&3])` -/
+
+abbrev K4 := UInt32 × UInt32 × UInt32 × UInt32
+
+def refEnc (k : K4) : Nat → UInt32 → UInt32 × UInt32 → UInt32 × UInt32
+  | 0, _, v => v
+  | n+1, sum, v =>
+    let v0 := v.1 + ((((v.2 <<< 4) ^^^ (v.2 >>> 5)) + v.2) ^^^ (sum + sel k (sum &&& 3)))
+    let sum' := sum + delta
+    let v1 := v.2 + ((((v0 <<< 4) ^^^ (v0 >>> 5)) + v0) ^^^ (sum' + sel k ((sum' >>> 11) &&& 3)))
+    refEnc k n sum' (v0, v1)
+
+/-- `sum` starts at delta·n: `v1 -= … ^ (sum + k[(sum>>11)&3]); sum -= delta; v0 -= … ^ (sum + k[sum&3])` -/
+def refDec (k : K4) : Nat → UInt32 → UInt32 × UInt32 → UInt32 × UInt32
+  | 0, _, v => v
+  | n+1, sum, v =>
+    let v1 := v.2 - ((((v.1 <<< 4) ^^^ (v.1 >>> 5)) + v.1) ^^^ (sum + sel k ((sum >>> 11) &&& 3)))
+    let sum' := sum - delta
+    let v0 := v.1 - ((((v1 <<< 4) ^^^ (v1 >>> 5)) + v1) ^^^ (sum' + sel k (sum' &&& 3)))
+    refDec k n sum' (v0, v1)
+
+def keyWords (key : Bytes) : K4 := (be32 key, be32 (key.drop 4), be32 (key.drop 8), be32 (key.drop 12))
+
 end XC.C12.Xtea
